@@ -1,6 +1,6 @@
 (* C12, part 2: every line the schema compiler emits is recognised as one rule.
    - character set of sanitised rule names WITHOUT the no-capital hypothesis ([A-Za-z0-9_]);
-   - the field-line prefix  name ::= "FIELD" "::" ws  from the initial state;
+   - the field-line prefix  name ::= (quoted field name) (quoted ::) ws  from the initial state;
    - `pat_good p`: the right-hand side p completes the rule, adds no reference and no empty alternative;
      proved for every fragment the _compile_* functions return except REGEX (fixed fragments by computation
      with the rule name / field name kept symbolic, CONST and ENUM by induction over the escaped text);
